@@ -8,7 +8,7 @@ namespace Jwt
 diagnostics and for stating which layer rejected -/
 inductive Err where
   | mustPassToken | noDot1 | noDot2 | hdrParse | hdrAlgInvalid | hdrAlgMissing | payParse
-  | cbError | setkeyNeedsPrivate | setkeyAlgNoKey | setkeyNoAlg | setkeyMismatch | cbKeyInvalid
+  | cbError | cbCtxNoCb | setkeyNeedsPrivate | setkeyAlgNoKey | setkeyNoAlg | setkeyMismatch | cbKeyInvalid
   | claims | expectedSig | sigButAlgNone | sigButNoKey | keyAlgMismatch | cfgAlgMismatch | cfgKeyMismatch
   | keyTooShort | keyType | sigDecode | sigFailed | signFailed | unknownAlg | encode
   deriving DecidableEq, Repr, Inhabited
